@@ -39,5 +39,5 @@ func (e StringCharTupleExpr) Eval(ctx context.Context, local Scope) (_ Value, er
 	if err != nil {
 		return nil, WrapContextErr(err, e, local)
 	}
-	return NewStringCharTuple(int(at.(Number).Float64()), rune(char.(Number).Float64())), nil
+	return NewTuple(NewAttr("@", at), NewAttr(StringCharAttr, char)), nil
 }
